@@ -54,6 +54,24 @@ def probe(acc, world, trace, meta, props):
         acc.violation(sig=dict(prop=prop, backend="local", what=what, stale_only=bool(blame) and blame <= stale, **sig), case=dict(kind="local", prop=prop, meta=meta, trace=trace), observed=observed,
                       msg=f"[{prop}] [{meta['wf']}/local] after {trace}: {what}: {json.dumps(observed, default=str)[:500]}")
 
+    _c0, _r0, rel0 = CW.cone_names(world, None)
+
+    def blame_roots(wrong):
+        """Of the targets whose row is wrong, those that are not merely downstream of a wrong row of a target holding a stale id (a
+        row is derived from the dependencies' rows): the knock-on effects of the known id-reuse finding are attributed to it."""
+        wrong = set(wrong)
+
+        def upstream(n, seen):
+            for d in rel0["dependencies"].get(n, ()):
+                if d in seen:
+                    continue
+                seen.add(d)
+                if (d in wrong and d in stale) or upstream(d, seen):
+                    return True
+            return False
+
+        return {n for n in wrong if n in stale or not upstream(n, set())}
+
     pl = CW.ref_plan(world)
     # ---- C08 / C05: status rows, previews
     with W.Session(world) as s:
@@ -70,7 +88,8 @@ def probe(acc, world, trace, meta, props):
         return None
     if rows != pl["status"]:
         diff = {k: dict(shown=rows.get(k), expected=v) for k, v in pl["status"].items() if rows.get(k) != v}
-        viol("C08", "row", dict(diff=diff, tracked=(world.tracked or {}).get("local"), pool=world.pool["summary"]["tasks"], aliased=alias_info(world)), blame=diff)
+        roots = blame_roots(diff)
+        viol("C08", "row", dict(diff=diff, tracked=(world.tracked or {}).get("local"), pool=world.pool["summary"]["tasks"], aliased=alias_info(world)), blame=roots)
     exp_tracked = {}
     for t in wf.targets:
         lt = LB.latest_task(world.pool, t.name)
@@ -151,7 +170,7 @@ def probe(acc, world, trace, meta, props):
                 viol("C17", "a selected target's own live task survived the cancel", dict(args=args, still=sorted(still), requests=got, pool=w_c.pool["summary"]["tasks"]), sel=label)
             elif rows_c != pl_c["status"]:
                 viol("C17", "rows wrong after cancel", dict(args=args, rows=rows_c, expected=pl_c["status"], pool=w_c.pool["summary"]["tasks"], aliased=alias_info(world)), sel=label,
-                     blame={k for k in pl_c["status"] if rows_c.get(k) != pl_c["status"][k]})
+                     blame=blame_roots(k for k in pl_c["status"] if rows_c.get(k) != pl_c["status"][k]))
             # nobody else's task was cancelled
             before = {t["tid"]: t["state"] for t in world.pool["summary"]["tasks"]}
             afterst = {t["tid"]: (t["state"], t["name"]) for t in w_c.pool["summary"]["tasks"]}
